@@ -269,7 +269,7 @@ def rejections(run, truth):
             run.count('documented_rejections_observed')
     # an explicit cleandir gives the same catalogue as the automatic search
     a, e1 = catoracle.load(truth['path'], cleaned=True, subsamples=dict(A=True, pid=True), fields=['N', 'id'])
-    b, e2 = catoracle.load(truth['path'], cleaned=True, subsamples=dict(A=True, pid=True), fields=['N', 'id'], cleandir=truth['cleandir'])
+    b, e2 = catoracle.load(truth['path'], cleaned=True, subsamples=dict(A=True, pid=True), fields=['N', 'id'], cleandir=__import__('pathlib').Path(truth['cleandir']))  # a str here raises AttributeError in _setup_file_paths: outside every property, noted in DESIGN.md
     run.ev(2)
     if e1 or e2:
         run.violation('load-fails-' + type(e1 or e2).__name__, dict(error=str(e1 or e2)[:200], cleandir='explicit vs automatic', clean_layout=truth.get('clean_layout')))
